@@ -178,7 +178,8 @@ fn main() {
         });
     }
     for t in templates { for n in nums { corpus.push(t.replace("{N}", n)); } }
-    let corpus_path = "/verif/target/c09_corpus.jsonl";
+    let corpus_path_s = format!("{}/target/c09_corpus.jsonl", verif_root());
+    let corpus_path = corpus_path_s.as_str();
     let mut xcheck_cases = 0u64;
     {
         use std::io::Write;
@@ -188,7 +189,7 @@ fn main() {
             writeln!(f, "{}", json!([x, want])).unwrap();
         }
     }
-    match std::process::Command::new("python3-vt").arg("/verif/py/pep440_xcheck.py").arg(corpus_path).stdin(std::process::Stdio::null()).output() {
+    match std::process::Command::new("python3-vt").arg(format!("{}/py/pep440_xcheck.py", verif_root())).arg(corpus_path).stdin(std::process::Stdio::null()).output() {
         Ok(o) => {
             let out = String::from_utf8_lossy(&o.stdout).to_string();
             if !o.status.success() {
